@@ -1,7 +1,7 @@
 """C10 - reflowing to a maximum line length preserves meaning and honours the limit (E2 paragraphs x all L)."""
 import re
 import itertools
-from mc import core
+from mc import core, trees
 
 ID = 'C10'
 TECHNIQUE = ('exhaustive enumeration of all paragraphs of 1-2/3 (sub-menu 3/4) inline items out of an 11-item menu under every '
@@ -52,6 +52,10 @@ def jobs(tier):
         js.append(('paras', ch, b['items'], b['sub_items'], None))
         for by in BYSTANDERS:
             js.append(('paras', ch, 1, 0, by))
+    nt = 3 if tier == 'quick' else 4
+    for n in range(1, nt + 1):
+        ns = 1 if n < 3 else (16 if n == 3 else 128)
+        js += [('trees', n, 2 if tier == 'quick' else 3, sh, ns, None) for sh in range(ns)]
     return js
 
 
@@ -118,7 +122,7 @@ def breakable_space(line_after_prefix):
 PREFIX = re.compile(r'^(?:> ?|[-+*] |\d+[.)] | +)*')
 
 
-def check_doc(r, m, bystander, case_base, by_lines=()):
+def check_doc(r, m, bystander, case_base, by_lines=(), length_clause=True):
     """render with every L (parse once), judge every distinct output"""
     from mistletoe import Document
     from mistletoe.markdown_renderer import MarkdownRenderer
@@ -145,13 +149,38 @@ def check_doc(r, m, bystander, case_base, by_lines=()):
     r.transitions += LMAX
     for w, Ls in outs.items():
         r.validated += 1
-        f = judge(m, w, Ls, h_ref, bystander, by_lines)
+        f = judge(m, w, Ls, h_ref, bystander, by_lines, length_clause)
         if f:
-            r.fail(dict(case_base, L=f.get('L', Ls[0])), f['sig'], f.get('detail', ''), expected=f.get('expected'), observed=f.get('observed'))
+            r.fail(dict(case_base, L=f.get('L', Ls[0])), f['sig'], f.get('detail', ''), kf=classify(m, f), expected=f.get('expected'), observed=f.get('observed'))
     r.outcome('distinct-layouts=%d' % min(len(outs), 12))
 
 
-def judge(m, w, Ls, h_ref, bystander, by_lines=()):
+EMPTY_ITEM = re.compile(r'^(?:> ?| )*(?:(?:[-+*]|\d{1,9}[.)]) +)*(?:[-+*]|\d{1,9}[.)]) ?$', re.M)
+
+
+def classify(m, f):
+    """the recorded C09 finding (blank line after an empty list item is lost when rendering back to Markdown) shows here
+    too; it is attributed only if the input has an empty list item AND the rendering *without* any line limit already
+    has the same fault (so the reflow logic is not what fails)"""
+    if f['sig'] not in ('reflow-changes-meaning', 'reflow-not-idempotent') or not EMPTY_ITEM.search(m):
+        return None
+    from mistletoe import Document
+    from mistletoe.markdown_renderer import MarkdownRenderer
+    try:
+        core.fresh()
+        with MarkdownRenderer() as rend:
+            w0 = rend.render(Document(m))
+        core.fresh()
+        with MarkdownRenderer() as rend:
+            w00 = rend.render(Document(w0))
+        if ws_norm(html_of(w0)) != ws_norm(html_of(m)) or w00 != w0:
+            return 'KF-C10-blank-line-after-empty-list-item-lost'
+    except Exception:
+        return None
+    return None
+
+
+def judge(m, w, Ls, h_ref, bystander, by_lines=(), length_clause=True):
     by_lines = list(by_lines)
     from mistletoe import Document
     from mistletoe.markdown_renderer import MarkdownRenderer
@@ -171,7 +200,7 @@ def judge(m, w, Ls, h_ref, bystander, by_lines=()):
             return dict(sig='block-was-rebroken:' + bystander, expected=keep, observed=w, L=Ls[0])
     # (3) over-long lines hold no breakable space
     skip = set(keep)
-    for L in (Ls[0], Ls[-1]):
+    for L in ((Ls[0], Ls[-1]) if length_clause else ()):
         for line in wl:
             if len(line) <= L or line in skip:
                 continue
@@ -189,8 +218,19 @@ def judge(m, w, Ls, h_ref, bystander, by_lines=()):
 
 
 def run_job(job):
-    _, chain, k, ksub, by = job
     r = core.Result()
+    if job[0] == 'trees':
+        # whole generated documents (every block kind, nested): meaning and idempotence under every L; the length clause
+        # is not judged here (tables, code and HTML lines are full of spaces that must not be broken)
+        _, n, depth, sh, ns, _x = job
+        for i, blocks in enumerate(trees.all_docs(n, depth)):
+            if i % ns == sh:
+                m = trees.to_markdown(blocks, trees.DEFAULTS)[0]
+                r.states += 1
+                check_doc(r, m, None, dict(markdown=m, bystander=None, by_lines=[], length_clause=False), (), length_clause=False)
+        r.sample(dict(space='generated trees', nodes=n), 1)
+        return r
+    _, chain, k, ksub, by = job
     seqs = []
     n = len(ITEMS)
     for L in range(1, k + 1):
@@ -218,4 +258,7 @@ def replay(case):
     core.fresh()
     with MarkdownRenderer(max_line_length=L) as rend:
         w = rend.render(Document(m))
-    return judge(m, w, [L], h_ref, case.get('bystander'), case.get('by_lines') or ())
+    f = judge(m, w, [L], h_ref, case.get('bystander'), case.get('by_lines') or (), case.get('length_clause', True))
+    if f:
+        f['kf'] = classify(m, f)
+    return f
